@@ -325,6 +325,30 @@ def canon_out(out):
     return rest + ntfs
 
 
+def build_subscribe(oid, pid, conf, life, via):
+    """SubscribeCOVRequest, or (via = ["p", increment | None]) SubscribeCOVPropertyRequest for the
+    presentValue of the object — the second public entry point of the same mechanism"""
+    from bacpypes.apdu import SubscribeCOVRequest, SubscribeCOVPropertyRequest
+    if via:
+        from bacpypes.basetypes import PropertyReference
+        r = SubscribeCOVPropertyRequest(subscriberProcessIdentifier=pid, monitoredObjectIdentifier=oid,
+                                        monitoredPropertyIdentifier=PropertyReference(propertyIdentifier="presentValue"))
+        if via[1] is not None:
+            r.covIncrement = via[1] / 16.0
+    else:
+        r = SubscribeCOVRequest(subscriberProcessIdentifier=pid, monitoredObjectIdentifier=oid)
+    if conf is not None:
+        r.issueConfirmedNotifications = conf
+    if life is not None:
+        r.lifetime = life
+    return r
+
+
+def via_of(a):
+    """optional 7th element of a "sub" action (6th of a request inside "subs")"""
+    return a[6] if len(a) > 6 else None
+
+
 class Housekeeping:
     """other long-lived timers in the same process: no-op FunctionTasks that are armed, stopped
     and re-armed, and a no-op recurring task.  They share the TaskManager heap with the
@@ -520,15 +544,12 @@ class LockRig:
         vt = self.vt
         try:
             if op == "sub":
-                from bacpypes.apdu import SubscribeCOVRequest
                 from bacpypes.pdu import Address
                 oc = self.ocfg.get(ev["obj"])
                 oid = (oc["type"], ev["obj"] + 1) if oc else ("analogValue", ev["obj"] + 1)
-                r = SubscribeCOVRequest(subscriberProcessIdentifier=ev["pid"], monitoredObjectIdentifier=oid)
-                if ev["conf"] is not None:
-                    r.issueConfirmedNotifications = ev["conf"]
-                if ev["life"] is not None:
-                    r.lifetime = ev["life"]
+                # "via": the request arrives as SubscribeCOVProperty (the model has ONE subscribe
+                # event: the two handlers are the same mechanism and must behave alike)
+                r = build_subscribe(oid, ev["pid"], ev["conf"], ev["life"], ev.get("via"))
                 r.pduSource = Address(ev["addr"] + 1)
                 self.invoke = (self.invoke + 1) % 256
                 r.apduInvokeID = self.invoke
@@ -677,6 +698,16 @@ class NetRig:
     def settle(self):
         self.vt.run(until=self.vt.now)
 
+    def link_down(self, down):
+        """the link below the device refuses to send (vlan node detached: Node.indication raises
+        ConfigurationError 'unbound node') / works again"""
+        node = self.iut.node
+        if down:
+            self._lan = node.lan
+            node.lan = None
+        else:
+            node.lan = self._lan
+
     def drain_deferred(self):
         """only the deferred functions (what core.run does after ONE event), no task: the
         network delivery of what was just sent has not happened yet"""
@@ -713,16 +744,12 @@ class NetRig:
         self.vt.errors = []
         return out
 
-    def subscribe(self, addr, pid, obj, conf, life, take=True):
-        from bacpypes.apdu import SubscribeCOVRequest, SimpleAckPDU
+    def subscribe(self, addr, pid, obj, conf, life, take=True, via=None):
+        from bacpypes.apdu import SimpleAckPDU
         from bacpypes.iocb import IOCB
         oc = self.ocfg.get(obj)
         oid = (oc["type"], obj + 1) if oc else ("analogValue", obj + 1)
-        r = SubscribeCOVRequest(subscriberProcessIdentifier=pid, monitoredObjectIdentifier=oid)
-        if conf is not None:
-            r.issueConfirmedNotifications = conf
-        if life is not None:
-            r.lifetime = life
+        r = build_subscribe(oid, pid, conf, life, via)
         r.pduDestination = self.iut.address
         iocb = IOCB(r)
         self.subs[addr].request_io(iocb)
@@ -745,14 +772,11 @@ class NetRig:
         from bacpypes.apdu import SubscribeCOVRequest, SimpleAckPDU, Error
         from bacpypes.app import Application
         self.responses = []
-        for addr, pid, obj, conf, life in reqs:
+        for q in reqs:
+            addr, pid, obj, conf, life = q[:5]
             oc = self.ocfg.get(obj)
             oid = (oc["type"], obj + 1) if oc else ("analogValue", obj + 1)
-            r = SubscribeCOVRequest(subscriberProcessIdentifier=pid, monitoredObjectIdentifier=oid)
-            if conf is not None:
-                r.issueConfirmedNotifications = conf
-            if life is not None:
-                r.lifetime = life
+            r = build_subscribe(oid, pid, conf, life, q[5] if len(q) > 5 else None)
             r.pduDestination = self.iut.address
             Application.request(self.subs[addr], r)
         self.settle()
@@ -911,7 +935,11 @@ class Gen:
             self.keys.append((addr, pid, obj))
         if life:
             self.deadlines.append(self.q + 4 * life)
-        return ["sub", addr, pid, obj, conf, life]
+        act = ["sub", addr, pid, obj, conf, life]
+        if rng.random() < 0.3:
+            # the same request as SubscribeCOVProperty, with or without a covIncrement
+            act.append(["p", rng.choice([None, None, 8, 16, 40])])
+        return act
 
     def write_burst(self):
         rng = self.rng
@@ -1099,7 +1127,8 @@ def make_heap_case(rng, name):
             q += k
 
     def subscribe(key, life):
-        acts.append(["sub", key[0], key[1], key[2], rng.choice([True, False]), life])
+        acts.append(["sub", key[0], key[1], key[2], rng.choice([True, False]), life] +
+                    ([["p", rng.choice([None, 16])]] if rng.random() < 0.25 else []))
         acts.append(["run"])
         deadlines[key] = q + 4 * life if life else None
 
@@ -1207,7 +1236,8 @@ def make_order_case(rng, name):
         acts.append(["flush", (pending + 1) * maxd + 4])
 
     for k in keys:
-        acts.append(["sub", k[0], k[1], k[2], conf[k], rng.choice([0, 0, 600, 900])])
+        acts.append(["sub", k[0], k[1], k[2], conf[k], rng.choice([0, 0, 600, 900])] +
+                    ([["p", rng.choice([None, 16])]] if rng.random() < 0.3 else []))
     flush(len(keys))
     acts.append(["read"])
 
@@ -1234,6 +1264,12 @@ def make_order_case(rng, name):
 
     for _ in range(rng.randrange(2, 5)):
         hot = rng.choice([k[2] for k in keys])
+        if rng.random() < 0.35:
+            # one change while the link below the device refuses to send, then recovery
+            acts.append(["fault", [write(hot) for _ in range(rng.choice([1, 1, 2]))]])
+            # a confirmed notification whose send failed is retried by the transaction layer after
+            # the APDU timeout (3 s): wait for that too before judging
+            acts.append(["flush", 16 + (2 * len(keys) + 2) * maxd + 4])
         n = rng.randrange(3, 7)
         ws = [write(hot if rng.random() < 0.8 else rng.choice(writable)) for _ in range(n)]
         acts.append(["wseq", ws])
@@ -1249,7 +1285,8 @@ def make_order_case(rng, name):
         if r < 0.25:
             k = rng.choice(keys)
             conf[k] = not conf[k]
-            acts.append(["sub", k[0], k[1], k[2], conf[k], rng.choice([0, 600])])
+            acts.append(["sub", k[0], k[1], k[2], conf[k], rng.choice([0, 600])] +
+                        ([["p", None]] if rng.random() < 0.4 else []))
             flush(1)
         elif r < 0.35 and len(keys) > 1:
             k = keys.pop(rng.randrange(len(keys)))
@@ -1258,11 +1295,135 @@ def make_order_case(rng, name):
     return {"name": name, "cfg": cfg, "actions": acts, "modes": ["order"]}
 
 
+def make_resub_case(rng, name):
+    """reuse after completion: every subscription of an object goes (cancel of the last one, or its
+    expiry), changes then stay silent, and the object is subscribed to AGAIN (same or another
+    subscriber, SubscribeCOV or SubscribeCOVProperty): ack, initial notification, listed, and every
+    qualifying change reported.  Two or three generations per object."""
+    cfg = gen_cfg(rng, nsub=2)
+    objs = {o["id"]: dict(o) for o in cfg["objs"]}
+    writable = [i for i, o in objs.items() if o["type"] in ANALOG_TYPES or o["type"] in GENERIC_TYPES]
+    chosen = rng.sample(writable, min(len(writable), rng.choice([1, 2, 2, 3])))
+    cur = {i: o["pv"] for i, o in objs.items()}
+    acts = []
+
+    def big(obj):
+        o = objs[obj]
+        t = o["type"]
+        if t.startswith("binary"):
+            v = 1 - cur[obj]
+        elif t.startswith("multiState"):
+            v = cur[obj] % 4 + 1
+        else:
+            v = abs(cur[obj]) + 2 * max(o["inc"], 1) + 16
+        cur[obj] = v
+        return [["w", [[obj, "pv", v]]], ["run"]]
+
+    for gen in range(rng.choice([2, 2, 3])):
+        for obj in chosen:
+            keys = [(rng.randrange(2), rng.choice([1, 2, 7]), obj)]
+            if rng.random() < 0.4:
+                keys.append(((keys[0][0] + 1) % 2, keys[0][1], obj))
+            by_expiry = rng.random() < 0.4
+            for k in keys:
+                life = rng.choice([2, 3, 5]) if by_expiry else rng.choice([0, 0, 60])
+                acts.append(["sub", k[0], k[1], k[2], rng.choice([True, False]), life] +
+                            ([["p", None]] if rng.random() < 0.3 else []))
+                acts.append(["run"])
+            acts += big(obj)
+            if rng.random() < 0.5:
+                acts += big(obj)
+            if by_expiry:
+                acts.append(["adv", 4 * 5 + 1])                   # past every lifetime
+            else:
+                for k in keys:
+                    acts += [["sub", k[0], k[1], k[2], None, None], ["run"]]
+            acts.append(["read"])
+            acts += big(obj)                                      # nobody subscribed: silent
+    for obj in chosen:                                            # the last generation stays
+        acts += [["sub", 0, 1, obj, True, 0], ["run"]] + big(obj) + big(obj)
+    acts.append(["read"])
+    return {"name": name, "cfg": cfg, "actions": acts}
+
+
+OPT_SETTING = "interpreter started with -O (sys.flags.optimize = 1: assert statements are compiled away)"
+
+
+def optimized_pass(ctx, case=None):
+    """a few reuse-after-completion timelines (or the given case) in a CHILD interpreter started
+    with `python -O`, same rigs, same oracle, same model; what it finds is reported like anything
+    else, marked with the setting"""
+    import pickle, subprocess, sys, tempfile
+    fd, path = tempfile.mkstemp(prefix="verif-c16-O-", suffix=".pkl")
+    os.close(fd)
+    cmd = [sys.executable, "-O", "-m", "harness.c16", "--optimized", path, str(ctx.seed), "1" if ctx.model_ok else "0"]
+    cpath = None
+    try:
+        if case is not None:
+            fd2, cpath = tempfile.mkstemp(prefix="verif-c16-O-", suffix=".json")
+            with os.fdopen(fd2, "w") as f:
+                json.dump(case, f)
+            cmd.append(cpath)
+        try:
+            p = subprocess.run(cmd, cwd=core.VERIF, capture_output=True, text=True, timeout=600)
+        except subprocess.TimeoutExpired:
+            raise core.Infra("python -O pass timed out")
+        if p.returncode != 0 or not os.path.getsize(path):
+            raise core.Infra("python -O pass ended with rc %d: %s" % (p.returncode, (p.stdout + p.stderr)[-400:]))
+        with open(path, "rb") as f:
+            d = pickle.load(f)
+    finally:
+        for q in (path, cpath):
+            try:
+                if q:
+                    os.remove(q)
+            except OSError:
+                pass
+    if d.get("optimize") != 1:
+        raise core.Infra("python -O pass did not run optimized")
+    for rec in d["failures"]:
+        rec["setting"] = OPT_SETTING
+        rec["optimized"] = True
+        rec["what"] = "[python -O] %s" % rec.get("what")
+    for dis in d["disagreements"]:
+        dis["stream"] = "python-O:" + str(dis.get("stream"))
+    ctx.merge(d)
+
+
+def optimized_child(argv):
+    import pickle, sys
+    path, seed, model_ok = argv[0], int(argv[1]), argv[2] == "1"
+    core.bind_repo()
+    ctx = core.Ctx("C16", "quick", seed)
+    ctx.model_ok = model_ok
+    if len(argv) > 3:
+        with open(argv[3]) as f:
+            case = json.load(f)
+        run_case(ctx, case, "-O-replay")
+    else:
+        for c in corpus_cases():
+            if c.get("optimized"):
+                run_case(ctx, c, "-python-O")
+        rng = ctx.sub_rng("c16/optimized")
+        for j in range(6):
+            case = make_resub_case(rng, "resub-O-%d" % j)
+            run_lockstep(ctx, case, "lockstep-python-O")
+            if j % 2 == 0:
+                run_e2e(ctx, case, "e2e-python-O")
+    d = ctx.export()
+    d["optimize"] = sys.flags.optimize
+    with open(path, "wb") as f:
+        pickle.dump(d, f)
+
+
 def order_as_lockstep(case):
     """the same timeline for the component rig / the model: every write followed by a drain"""
     acts = []
     for a in case["actions"]:
         if a[0] == "wseq":
+            for w in a[1]:
+                acts += [["w", [w]], ["run"]]
+        elif a[0] == "fault":
             for w in a[1]:
                 acts += [["w", [w]], ["run"]]
         elif a[0] == "flush":
@@ -1284,6 +1445,7 @@ def run_order(ctx, case, stream="e2e-order"):
     rig = NetRig(cfg)
     spec = Spec(cfg)
     expected = []                 # notifications in the order they are due to be generated
+    optional = []                 # reports of a change during which the link refused to send: may be lost
     failed = set()
 
     def fail(kind, i, what, **kw):
@@ -1297,6 +1459,10 @@ def run_order(ctx, case, stream="e2e-order"):
             if o[0] == "exc":
                 fail("unexpected-exception", i, "the real code raised %r" % (o[1:],))
         got = [o for _t, o in got_all if o[0] == "ntf"]
+        for o in list(optional):
+            if o in got:                          # it got through after all (queued / retried): fine
+                got.remove(o)
+        del optional[:]
         keys = []
         for o in expected + got:
             k = (o[1], o[2], o[3])
@@ -1324,7 +1490,7 @@ def run_order(ctx, case, stream="e2e-order"):
         now = rig.now()
         if kind == "sub":
             head = spec.subscribe(now, a[1], a[2], a[3], a[4], a[5])
-            outs = rig.subscribe(a[1], a[2], a[3], a[4], a[5], take=False)
+            outs = rig.subscribe(a[1], a[2], a[3], a[4], a[5], take=False, via=via_of(a))
             got_head = [cut(o) for _t, o in outs]
             if got_head != [cut(head[0])]:
                 fail("no-ack", i, "response %r, expected %r" % (got_head, head[0]))
@@ -1335,6 +1501,16 @@ def run_order(ctx, case, stream="e2e-order"):
                 expected += exp
                 rig.write(obj, prop, v)
                 rig.drain_deferred()
+        elif kind == "fault":
+            # send-failure fault: for these changes the link below the device refuses the send, then
+            # recovers.  Their reports may be lost; every LATER qualifying change must be notified.
+            rig.link_down(True)
+            for obj, prop, v in a[1]:
+                exp, _free = spec.burst(now, [(obj, prop, v)])
+                optional += exp
+                rig.write(obj, prop, v)
+                rig.drain_deferred()
+            rig.link_down(False)
         elif kind in ("adv", "flush"):
             target = now + a[1] * (US // 4)
             expected += [o for _t, o in spec.advance(now, target)]
@@ -1488,7 +1664,8 @@ def run_lockstep(ctx, case, stream="lockstep"):
         kind = a[0]
         now = us(rig.vt.now)
         if kind == "sub":
-            rep = prim(i, {"op": "sub", "addr": a[1], "pid": a[2], "obj": a[3], "conf": a[4], "life": a[5]})
+            rep = prim(i, {"op": "sub", "addr": a[1], "pid": a[2], "obj": a[3], "conf": a[4], "life": a[5],
+                           "via": via_of(a)})
             exp = judge.on_sub(i, now, a)
             outs = [(now, tuple(o)) for o in rep["out"]]
             judge.check_safety(i, outs)
@@ -1499,7 +1676,8 @@ def run_lockstep(ctx, case, stream="lockstep"):
                            "response %r, expected %r" % (got_head, exp[0]))
         elif kind == "subs":
             for q in a[1]:
-                rep = prim(i, {"op": "sub", "addr": q[0], "pid": q[1], "obj": q[2], "conf": q[3], "life": q[4]})
+                rep = prim(i, {"op": "sub", "addr": q[0], "pid": q[1], "obj": q[2], "conf": q[3], "life": q[4],
+                               "via": q[5] if len(q) > 5 else None})
                 exp = judge.on_sub(i, now, ["sub"] + list(q))
                 outs = [(now, tuple(o)) for o in rep["out"]]
                 judge.check_safety(i, outs)
@@ -1611,7 +1789,7 @@ def run_e2e(ctx, case, stream="e2e"):
         now = rig.now()
         if kind == "sub":
             exp = judge.on_sub(i, now, a)
-            outs = rig.subscribe(a[1], a[2], a[3], a[4], a[5])
+            outs = rig.subscribe(a[1], a[2], a[3], a[4], a[5], via=via_of(a))
             judge.check_safety(i, outs)
             head = [cut(o) for _t, o in outs if o[0] != "ntf"]
             if head != [cut(exp[0])]:
@@ -1689,6 +1867,11 @@ def shard(ctx, spec):
         elif kind == "heap":
             case = make_heap_case(rng, "heap-%d-%d" % (idx, j))
             run_lockstep(ctx, case, "lockstep-many")
+        elif kind == "resub":
+            case = make_resub_case(rng, "resub-%d-%d" % (idx, j))
+            run_lockstep(ctx, case, "lockstep-resub")
+            if j % 2 == 0:
+                run_e2e(ctx, case, "e2e-resub")
         elif kind == "order":
             case = make_order_case(rng, "order-%d-%d" % (idx, j))
             run_order(ctx, case)
@@ -1735,14 +1918,18 @@ def run(ctx):
     # corpus first (in a worker: the virtual clock must be installed before bacpypes creates its singleton)
     core.run_shards(ctx, "harness.c16", "shard_corpus", [0])
     if ctx.quick:
-        specs = [("lock", i, 14, 40) for i in range(10)] + [("e2e", i, 5, 36) for i in range(6)] + \
-                [("heap", i, 8, 0) for i in range(16)] + [("heap-e2e", i, 5, 0) for i in range(6)] + \
-                [("order", i, 8, 0) for i in range(8)]
+        specs = [("lock", i, 10, 40) for i in range(8)] + [("e2e", i, 5, 36) for i in range(4)] + \
+                [("heap", i, 5, 0) for i in range(16)] + [("heap-e2e", i, 4, 0) for i in range(4)] + \
+                [("order", i, 5, 0) for i in range(8)] + [("resub", i, 3, 0) for i in range(2)]
     else:
         specs = [("lock", i, 150, 60) for i in range(20)] + [("e2e", i, 50, 60) for i in range(12)] + \
                 [("heap", i, 120, 0) for i in range(16)] + [("heap-e2e", i, 40, 0) for i in range(8)] + \
-                [("order", i, 80, 0) for i in range(12)]
+                [("order", i, 80, 0) for i in range(12)] + [("resub", i, 40, 0) for i in range(4)]
     core.run_shards(ctx, "harness.c16", "shard", specs)
+    # the reuse-after-completion timelines once more under `python -O` (not again inside the
+    # debug-flags child: one non-default setting at a time)
+    if not os.environ.get("VERIF_SUBPASS"):
+        optimized_pass(ctx)
 
 
 def search(ctx):
@@ -1787,4 +1974,15 @@ def replay(ctx, payload):
     case = case.get("replay", case)
     if "cfg" not in case:
         raise core.Infra("nothing to replay")
+    if rec.get("optimized"):
+        optimized_pass(ctx, case)
+        return
     core.run_shards(ctx, "harness.c16", "shard_replay", [case])
+
+
+if __name__ == "__main__":
+    import sys as _sys
+    if len(_sys.argv) > 2 and _sys.argv[1] == "--optimized":
+        optimized_child(_sys.argv[2:])
+    else:
+        print("usage: python -O -m harness.c16 --optimized <out.pkl> <seed> <model_ok> [case.json]")
